@@ -177,6 +177,8 @@ def run(ctx):
                 # ACT/ACT ISDA across calendar years with one date in 1900: the code measures the
                 # 1900 stub from the table's 1 Jan 1900, which counts Excel's phantom 29 Feb 1900
                 fnd = 'C15/actact-isda-1900-phantom-leap-day'
+                if model is not None and not same(r, model[i]):
+                    fnd = None   # excused only where the generated model predicts the same numbers
             if nb_s <= 5 or fnd:
                 ctx.violation('year_frac disagrees with the ISDA/ICMA definition',
                               {'op': op, 'implementation': str(r), 'spec': str(spec[i]),
